@@ -46,11 +46,15 @@ Definition custom_err (K : ekind) (k : nat) (sp : span) : err :=
   | KRich => mkErr sp (RCustom k) []
   end.
 
+Definition or_found (f g : option tok) : option tok := match f with Some x => Some x | None => g end.
+
+(* Rich::merge after the repair of finding F17: like merge_expected_found, an error that saw no token takes the
+   other's `found` (before, memoized()/labelled() shelters changed the reported `found`) *)
 Definition flat_merge (a b : reason) : reason :=
   match a, b with
   | RCustom k, _ => RCustom k
   | _, RCustom k => RCustom k
-  | REF e1 f1, REF e2 _ => REF (union e1 e2) f1
+  | REF e1 f1, REF e2 f2 => REF (union e1 e2) (or_found f1 f2)
   end.
 
 Definition merge (K : ekind) (a b : err) : err :=
@@ -58,8 +62,6 @@ Definition merge (K : ekind) (a b : err) : err :=
   | KRich => mkErr (espan a) (flat_merge (ereason a) (ereason b)) (ectx a)
   | _ => a
   end.
-
-Definition or_found (f g : option tok) : option tok := match f with Some x => Some x | None => g end.
 
 Definition merge_ef (K : ekind) (a : err) (exp : list N) (found : option tok) (sp : span) : err :=
   match K with
